@@ -258,6 +258,7 @@ class Ctx:
 
     # ------------------------------------------------------------- scenarios
     def run_scenarios(self, scs, name="sc", par=16, isolate=False, timeout=1800, child_timeout=60, cmd=None):
+        hcmd = cmd      # (the name cmd is reused for the argument vector below)
         vh = self.build_harness(cmd)
         self.last_run = {"harness_cmd": cmd or getattr(self, "harness_cmd", "vh"), "isolate": bool(isolate)}
         inp = os.path.join(self.work, name + ".json")
@@ -279,7 +280,7 @@ class Ctx:
             if not isolate:
                 log("[%s] re-running %s isolated (one process per scenario)" % (self.pid, name))
                 out = self.run_scenarios(scs, name=name + "-iso", par=par, isolate=True, timeout=timeout,
-                                         child_timeout=child_timeout, cmd=cmd)
+                                         child_timeout=child_timeout, cmd=hcmd)
                 # the crash is real-code behaviour: if no isolated child dies the same way it is not attributable to a scenario and
                 # the run must not be reported as "held" (finish() turns it into exit 2 unless a violation explains it)
                 died = False
